@@ -487,12 +487,12 @@ func genC17(f string) GenFn {
 			for d := 0; d < k; d++ {
 				v := r.valFor(f, "quick")
 				doc := r.WireDoc(f, v, r.P(30))
-				if f == "json" {
+				if f == "json" && r.P(50) {
 					doc = append(doc, ' ')
 				}
 				docs = append(docs, hx(doc))
 			}
-			emit(fmt.Sprintf("reuse-parse %s %s", f, strings.Join(docs, ";")))
+			emit(fmt.Sprintf("reuse-parse %s %s %s", f, Pick(r, []string{"P", "W"}), strings.Join(docs, ";")))
 		}
 	}
 }
